@@ -69,9 +69,9 @@ def cases(rng, tier):
     for a in s1:
         for b in s1:
             cs.append((line(rng, a, b), "exhaustive_binary"))
-    for fam, a, b in gen_nfa.targeted_pairs(rng, 60 if tier == "quick" else 600):
+    for fam, a, b in gen_nfa.targeted_pairs(rng, 150 if tier == "quick" else 1500):
         cs.append((line(rng, a, b), fam))
-    n = 1500 if tier == "quick" else 40000
+    n = 5000 if tier == "quick" else 60000
     for _ in range(n):
         ns = rng.choice([2, 2, 3])
         a = gen.rand_nfa_sized(rng, 4, 8, ns); b = gen.rand_nfa_sized(rng, 4, 8, ns)
@@ -116,4 +116,4 @@ LEVEL_NOTE = ("Trusted: Coq kernel, ExtrOcamlBasic extraction, OCaml/C++ glue (c
               "about the models of the old code. No axioms (Print Assumptions: closed under the global context).")
 TECHNIQUE = "Coq proof of models + verified gate deciders; extracted-model correspondence against libvata on generated NFA pairs"
 DESIGN_REF = "DESIGN.md 5/C10"
-READY = False
+READY = True
